@@ -1,0 +1,18 @@
+//go:build verif
+
+package ipa
+
+import "github.com/crate-crypto/go-ipa/bandersnatch/fr"
+
+// Verification hooks (build tag verif).
+
+func VerifBarycentricWeights(pw *PrecomputedWeights) []fr.Element {
+	return append([]fr.Element(nil), pw.barycentricWeights...)
+}
+func VerifInvertedDomain(pw *PrecomputedWeights) []fr.Element {
+	return append([]fr.Element(nil), pw.invertedDomain...)
+}
+func VerifComputeBVector(ic *IPAConfig, evalPoint fr.Element) []fr.Element {
+	return computeBVector(ic, evalPoint)
+}
+func VerifNumRounds(ic *IPAConfig) uint32 { return ic.numRounds }
